@@ -15,6 +15,7 @@ def check(tier, seed):
     with C.WorkDir('C03') as wd:
         C.audit_sources()
         C.props_obligations(res, 'C03', wd)
+        C.tie_b_kernels(res, wd, ('ck', 'ubx'))
         rng = C.rng_for(seed, 'C03')
         cases = []
         n = 300 if tier == 'quick' else 12000
